@@ -661,7 +661,8 @@ def lsp_stage(res, fnd, cases, d, max_cursors):
             problem = None
             st = {}
             try:
-                lsp_case(binpath, case, os.path.join(d, "lsp_ws%d" % i), libs_std, seed() * 1000 + i, max_cursors, cnt, st)
+                lsp_case(binpath, case, os.path.join(d, "lsp_ws%d" % i), libs_std, seed() * 1000 + i,
+                         (3 if max_cursors <= 10 else 8) if case["family"] == "kinds-batch" else max_cursors, cnt, st)
             except LspProblem as ex:
                 problem = ex
             except Exception as ex:          # a bug of this driver must not look like a pass
@@ -732,18 +733,21 @@ def main(tier, replay=None):
             summaries["corpus"] = s
             arenas += a
         if tier == "thorough":
-            ncases, nsteps, nlsp, wd, tmo, budget = 1700, 12, 40, 300, 3400, 780
+            ncases, nsteps, nlsp, wd, tmo, budget, kinds = 1700, 12, 40, 300, 3400, 700, 1
         else:
-            ncases, nsteps, nlsp, wd, tmo, budget = 40, 9, 6, 150, 900, 140
+            ncases, nsteps, nlsp, wd, tmo, budget, kinds = 40, 9, 6, 150, 900, 140, 2
         lsp_path = os.path.join(d, "lsp_cases.json")
         s, a, _ = run_harness(res, fnd, hbin, ["gen", str(seed()), str(ncases), str(nsteps), os.path.join(d, "gen.out"), work,
-                                               str(NTHREADS), str(wd), lsp_path, str(min(ncases, 400)), str(budget)],
+                                               str(NTHREADS), str(wd), lsp_path, str(min(ncases, 400)), str(budget), str(kinds)],
                               os.path.join(d, "gen.out"), "exploration", tmo, rayon=(2 if seed() % 2 else 4))
         summaries["exploration"] = s
         arenas += a
         if os.path.exists(lsp_path):
             allc = json.load(open(lsp_path))
-            lsp_cases = [c for c in allc if c["std"] in ("full", "std")][:nlsp]
+            lsp_cases = [c for c in allc if c["std"] in ("full", "std") and not c["family"].startswith("kinds")][:nlsp]
+            # kind confusion through the server: the region batches (every name at every site of a region)
+            regions = ("-s", "-d", "-c", "-l") if tier == "thorough" else ("-s", "-d")
+            lsp_cases += [c for c in allc if c["family"] == "kinds-batch" and c["id"].endswith(regions)]
         # the open findings through the server as well: own library std is found through the project's own config
         for c in json.load(open(corpus)) if os.path.exists(corpus) else []:
             if c["id"] in ("F28-typed-into-standard", "F27-std_logic_1164-is-entity", "F5-lexer-hang", "F4-deadlock", "F3-stale-lint"):
@@ -792,7 +796,13 @@ def main(tier, replay=None):
         "then `ncases` histories of `nsteps` edits each: families gen-ieee (generated 2-7 file project on std+ieee), gen-std (same "
         "without ieee), small (hand-written circular / duplicate / context shapes, 1/6 without library std), slice (files or 150-400 "
         "line slices of /repo/vhdl_libraries as project files), ownstd / ownieee (the project edits its own copy of std.* / "
-        "ieee.std_logic_1164). Edits are applied through Source::change (7/8 ranged, 1/8 whole document) + update_source + analyse. "
+        "ieee.std_logic_1164). Before them the systematic KIND-CONFUSION sweep on a project that declares one declaration of every "
+        "kind (parameterless / all-defaulted / parameterised / overloaded procedures and functions, types of every class, literals, "
+        "units, elements, objects of every class, aliases, attribute, component, packages, library, units, labels): family kinds = "
+        "for each of ~120 use sites (operand, condition, case selector and choice, range bound, attribute prefix, index, slice, actual, "
+        "formal, waveform, target, initial value, constraint, type mark, call, selected prefix/suffix, label, instantiated unit ...) "
+        "the identifier is replaced by every name in turn (quick: one name per kind, thorough: all ~70), queries on the edited line; "
+        "family kinds-batch = all sites of a region get the same name at once, for every name (also through vhdl_ls). Edits are applied through Source::change (7/8 ranged, 1/8 whole document) + update_source + analyse. "
         "After every analysis: diagnostics, then for the edited file (+1 other; all files at the first and last state) document "
         "symbols, semantic tokens, workspace symbols, unresolved references, and at <=48 cursors (2/3 within 2 lines of the edit, "
         "token starts/ends/middles by an independent scanner) + 10 out-of-range cursors (beyond line end, beyond last line, u32::MAX): "
